@@ -198,6 +198,7 @@ package imports
 //@   ensures peekOK(r.buf, r.peek)
 //@   ensures len(r.buf) >= old(len(r.buf))
 //@   ensures r.nerr <= old(r.nerr) + 2
+//@   ensures r.err == nil && !r.eof ==> r.peek != 0 && !identByte(r.peek)
 //@   ensures r.err == nil ==> r.nerr == old(r.nerr)
 //@   ensures old(r.err) != nil ==> r.err == old(r.err)
 //@   ensures old(r.eof) ==> r.eof
